@@ -65,9 +65,9 @@ func (s Step) Into(k string, v interface{}) {
 
 // Behaviour is one emitted behaviour.
 type Behaviour struct {
-	ID    int               `json:"id"`
-	Steps []Step            `json:"-"`
-	Raw   json.RawMessage   `json:"steps"`
+	ID    int             `json:"id"`
+	Steps []Step          `json:"-"`
+	Raw   json.RawMessage `json:"steps"`
 }
 
 // Divergence is what an adapter reports when the real code leaves the spec.
@@ -113,9 +113,9 @@ type Driver func(seed int64, p Params, out *bufio.Writer) (map[string]interface{
 var adapters = map[string]Adapter{}
 var drivers = map[string]Driver{}
 
-func Register(name string, a Adapter)     { adapters[name] = a }
+func Register(name string, a Adapter)      { adapters[name] = a }
 func RegisterDriver(name string, d Driver) { drivers[name] = d }
-func GetDriver(name string) Driver        { return drivers[name] }
+func GetDriver(name string) Driver         { return drivers[name] }
 
 type record struct {
 	Idx   int  `json:"idx"`
